@@ -1,37 +1,11 @@
 package drivers
 
-import (
-	"fmt"
-	"math/big"
-	"os"
-
-	"github.com/gr33nbl00d/caddy-revocation-validator/config"
-
-	"verif/h/rt/vsched"
-	"verif/h/world"
-)
+import "fmt"
 
 func init() { registry["DBG"] = runDbg }
 
+// runDbg: scratch entry point for diagnosing the harness (not registered in the manifest).
 func runDbg(tier string, args []string) int {
-	p := world.Std()
-	n := 1 << 19
-	doc := c17Doc(n, false)
-	seqWorld(func() {
-		w := NewCW(CWOpt{Disk: true, SigMode: config.SignatureValidationModeVerify})
-		defer os.RemoveAll(w.Dir)
-		w.Net.Routes[urlA] = &world.Behaviour{Label: "big", Body: doc}
-		w.Provision()
-		vsched.Drain()
-		hf := &hookFactory{inner: w.Repo().Factory}
-		hf.hook = func(k int) {
-			if k%(n/16) == 0 || k == 1 {
-				fmt.Printf("k=%d live=%.1f MiB\n", k, float64(liveHeap())/mib)
-			}
-		}
-		w.Repo().Factory = hf
-		first := world.Leaf(p.CA, new(big.Int).Lsh(big.NewInt(1), 70), []string{urlA}, nil)
-		fmt.Println(w.Lookup(first, world.Chain(first, p.CA, p.Root)))
-	})
+	fmt.Println("nothing to diagnose")
 	return 0
 }
